@@ -2847,10 +2847,35 @@ func (p *Prog) prebuiltIndexStays() []Ob {
 	}
 	var bad []string
 	n := 0
-	for _, b := range open.Blocks {
-		if !inEmptyBranch(b) {
-			continue
+	// an index object built as the head's (its constructor got true for its head flag)
+	headIndexArg := func(c *ssa.Call) bool {
+		for _, a := range c.Call.Args {
+			ic, ok := canon(a).(*ssa.Call)
+			if !ok {
+				if mi, isMI := canon(a).(*ssa.MakeInterface); isMI {
+					ic, ok = canon(mi.X).(*ssa.Call)
+				}
+			}
+			if !ok || ic.Common().StaticCallee() == nil {
+				continue
+			}
+			ig := ic.Common().StaticCallee()
+			if ig.Signature.Results().Len() != 1 {
+				continue
+			}
+			ipt, isPtr := ig.Signature.Results().At(0).Type().(*types.Pointer)
+			if !isPtr || namedOf(ipt.Elem()) != r.ReaderIndex {
+				continue
+			}
+			for _, ia := range ic.Call.Args {
+				if k, ok := ia.(*ssa.Const); ok && k.Value != nil && k.Value.String() == "true" {
+					return true
+				}
+			}
 		}
+		return false
+	}
+	for _, b := range open.Blocks {
 		for _, ins := range b.Instrs {
 			c, ok := ins.(*ssa.Call)
 			if !ok {
@@ -2862,6 +2887,10 @@ func (p *Prog) prebuiltIndexStays() []Ob {
 			}
 			pt, ok := g.Signature.Results().At(0).Type().(*types.Pointer)
 			if !ok || namedOf(pt.Elem()) != r.SegReader {
+				continue
+			}
+			// where there are no segment files, or where the prebuilt index says "I am the head's"
+			if !inEmptyBranch(b) && !headIndexArg(c) {
 				continue
 			}
 			// does the constructor pre-install an index, and what does it store in the head flag?
@@ -2914,14 +2943,14 @@ func (p *Prog) prebuiltIndexStays() []Ob {
 				}
 			}
 			if !headTrue {
-				bad = append(bad, fmt.Sprintf("%s: %s builds a reader over a segment without files, with a prebuilt index, that is not flagged as the head", p.at(c), shortCallee(g)))
+				bad = append(bad, fmt.Sprintf("%s: %s builds a reader with a prebuilt index that cannot be loaded again as it is (no segment files, or an index built as the head's), and does not flag the reader as the head", p.at(c), shortCallee(g)))
 			}
 			ob.Pos = p.at(c)
 		}
 	}
 	switch {
 	case len(bad) > 0:
-		ob.Status, ob.Msg, ob.Path = Violated, "GC drops the prebuilt index of the reader Open builds for a directory without segments; there is no file to load it from again, so every later query of the read-only handle fails", bad
+		ob.Status, ob.Msg, ob.Path = Violated, "GC drops the prebuilt index of a reader Open builds, and what is loaded instead is not the same (no file to load from, or an index that no longer answers as the head's): the read-only handle then fails or answers differently from a read-write one", bad
 	case n == 0:
 		ob.Status, ob.Msg = Discharged, "Open builds no reader with a prebuilt index in its no-segments branch"
 	default:
@@ -3155,4 +3184,424 @@ func (p *Prog) lostRaceIsNotAnAnswer() []Ob {
 		obs = append(obs, Ob{Rule: "R18", Inst: "d:lost-race", Props: []string{"C08"}, Pos: "-", Status: Undecided, Msg: "no classification of a head-rewrite re-validation failure found in the log implementation"})
 	}
 	return obs
+}
+
+// ---------------------------------------------------------------------------
+// R3c-w PUBLISH-ORDER (C09, C08): the head's next-offset atomic tells readers how far the head's item
+// list and key tree go (readers load it first, F7). On the writer side every update of the items and
+// of the key tree therefore comes before the store of the atomic, inside one exclusive hold of a lock
+// of the index object; a key inserted after the store is a message visible by offset but not by key.
+func (p *Prog) publishOrder() []Ob {
+	var obs []Ob
+	r := p.R
+	ls := p.LocksetCached()
+	var keysField *types.Var
+	hs := structOf(r.HeadIndex)
+	for i := 0; i < hs.NumFields(); i++ {
+		if n := namedOf(hs.Field(i).Type()); n != nil && n.Obj().Pkg() != nil && strings.HasPrefix(n.Obj().Pkg().Path(), "github.com/plar/go-adaptive-radix-tree") {
+			keysField = hs.Field(i)
+		}
+	}
+	n := 0
+	for _, fn := range p.Funcs {
+		if !srcFunc(fn) || recvNamed(fn) != r.HeadIndex {
+			continue
+		}
+		var stores []*ssa.Call
+		var updates []ssa.Instruction
+		for _, b := range fn.Blocks {
+			for _, ins := range b.Instrs {
+				switch x := ins.(type) {
+				case *ssa.Call:
+					if calleeName(x.Common()) == "(*sync/atomic.Int64).Store" && len(x.Call.Args) > 0 {
+						if fa, ok := x.Call.Args[0].(*ssa.FieldAddr); ok && fieldVarOfAddr(fa) == r.HINextOffset && !underConstruction(fa) {
+							stores = append(stores, x)
+						}
+					}
+					// the key tree handed to something that inserts into it
+					if keysField != nil {
+						for _, a := range x.Common().Args {
+							if f, base := loadedField(canon(a)); f == keysField && !underConstruction(base) {
+								if g := x.Common().StaticCallee(); g != nil && (funcPkgPath(g) == pkgIndex || !inModule(g)) {
+									updates = append(updates, x)
+								}
+							}
+						}
+						if x.Common().IsInvoke() && x.Common().Method.Name() == "Insert" {
+							if f, base := loadedField(canon(x.Common().Value)); f == keysField && !underConstruction(base) {
+								updates = append(updates, x)
+							}
+						}
+					}
+				case *ssa.Store:
+					if fa, ok := x.Addr.(*ssa.FieldAddr); ok && fieldVarOfAddr(fa) == r.HIItems && !underConstruction(fa) {
+						updates = append(updates, x)
+					}
+				}
+			}
+		}
+		if len(stores) == 0 {
+			continue
+		}
+		n++
+		ob := Ob{Rule: "R3", Inst: "publish-order:" + funcLabel(fn), Props: []string{"C09", "C08"}, Pos: p.at(stores[0]), Func: funcLabel(fn), Nontrivial: true}
+		var bad []string
+		for _, st := range stores {
+			for _, u := range updates {
+				// reads such as a lookup do not count: only calls that can insert (AppendKeys / Insert) and stores
+				if c, ok := u.(*ssa.Call); ok {
+					nm := calleeName(c.Common())
+					if !strings.Contains(nm, "Append") && !strings.Contains(nm, "Insert") && !c.Common().IsInvoke() {
+						continue
+					}
+				}
+				if canReach(st, u) {
+					bad = append(bad, fmt.Sprintf("%s: this update of what the next offset bounds can run after the store of the next offset at %s", p.at(u), p.at(st)))
+					continue
+				}
+				shared := false
+				for m, mode := range ls.at[u] {
+					if mode == modeW && ls.at[st][m] == modeW {
+						shared = true
+					}
+				}
+				if !shared {
+					bad = append(bad, fmt.Sprintf("%s: this update and the store of the next offset at %s are not inside one exclusive hold of a lock", p.at(u), p.at(st)))
+				}
+			}
+		}
+		if len(updates) == 0 {
+			bad = append(bad, "the function stores the next offset without updating the items it bounds")
+		}
+		if len(bad) > 0 {
+			ob.Status, ob.Msg, ob.Path = Violated, "the head's next offset is published before (or apart from) an update it bounds: a reader that loaded the new next offset does not find the message by key (or by offset) yet, and moves its cursor past it", uniqSorted(bad)
+		} else {
+			ob.Status, ob.Msg = Discharged, fmt.Sprintf("%d update(s) of the item list / key tree, all before the store of the next offset and inside the same exclusive hold", len(updates))
+		}
+		obs = append(obs, ob)
+	}
+	if n == 0 {
+		obs = append(obs, Ob{Rule: "R3", Inst: "publish-order", Props: []string{"C09", "C08"}, Pos: "-", Status: Undecided, Msg: "no method of the head's index object stores the next offset"})
+	}
+	return obs
+}
+
+// ---------------------------------------------------------------------------
+// R8 K3b COLLECT-LOOP-ASCENDS (C09): a loop that collects hash candidates into a batch and stops when
+// the batch is full walks the candidates upwards (oldest first); cut off while walking downwards, the
+// batch holds the newest matches and the cursor skips the older unread ones.
+func (p *Prog) collectLoopAscends() []Ob {
+	var obs []Ob
+	r := p.R
+	for _, fn := range p.Funcs {
+		if !srcFunc(fn) || recvNamed(fn) != r.SegReader || fn.Parent() != nil {
+			continue
+		}
+		for _, b := range fn.Blocks {
+			for _, ins := range b.Instrs {
+				c, ok := ins.(*ssa.Call)
+				if !ok || calleeName(c.Common()) != "(*"+pkgMessage+".Reader).Get" {
+					continue
+				}
+				h := enclosingLoopHeader(b)
+				if h == nil {
+					continue
+				}
+				loop := naturalLoop(h)
+				// does the loop append to a []Message and test its length against something?
+				collects, bounded := false, false
+				for lb := range loop {
+					for _, li := range lb.Instrs {
+						if ac, ok := li.(*ssa.Call); ok && isBuiltinCall(ac.Common(), "append") {
+							if sl, ok := ac.Type().Underlying().(*types.Slice); ok && namedOf(sl.Elem()) == r.Message {
+								collects = true
+							}
+						}
+					}
+					if iff, ok := terminator(lb).(*ssa.If); ok {
+						if x, y, _, ok := relCond(iff.Cond); ok {
+							for _, s := range []ssa.Value{x, y} {
+								if lc, ok := stripConv(s).(*ssa.Call); ok && isBuiltinCall(lc.Common(), "len") {
+									if sl, ok := lc.Call.Args[0].Type().Underlying().(*types.Slice); ok && namedOf(sl.Elem()) == r.Message {
+										bounded = true
+									}
+								}
+							}
+						}
+					}
+				}
+				if !collects || !bounded {
+					continue
+				}
+				ob := Ob{Rule: "R8", Inst: "K3b:" + funcLabel(fn) + ":collect-loop", Props: []string{"C09"}, Pos: p.at(c), Func: funcLabel(fn), Nontrivial: true}
+				switch loopDirection(h) {
+				case +1:
+					ob.Status, ob.Msg = Discharged, "the loop that fills a bounded batch walks the candidates upwards"
+				case -1:
+					ob.Status, ob.Msg = Violated, "the loop that fills a bounded batch walks the candidates downwards: when the batch is full it holds the newest matches, and the cursor derived from it skips the older ones for good"
+				default:
+					ob.Status, ob.Msg = Undecided, "cannot determine the direction of the loop that fills a bounded batch"
+				}
+				obs = append(obs, ob)
+			}
+		}
+	}
+	return obs
+}
+
+// R11 L9 / L10 (C07): what Check may call fine, and what Recover may give up on.
+//   L9  Check returns success only where the stored index was compared equal with the derived one, or
+//       where the index file does not exist;
+//   L10 Recover never hands on an error of reading the index where that error is of the index's
+//       corruption class: damage in the index (including its header flags) is what Recover repairs.
+func (p *Prog) checkAndRecoverVerdicts() []Ob {
+	var obs []Ob
+	ea := p.ErrAtomsCached()
+	seen := map[*ssa.Function]bool{}
+	for _, cl := range p.copyLoops() {
+		if cl.loop == nil || seen[cl.fn] {
+			continue
+		}
+		fn := cl.fn
+		res := fn.Signature.Results()
+		if res.Len() != 1 || !isErrType(res.At(0).Type()) {
+			continue
+		}
+		serves07 := false
+		for _, pr := range p.copyLoopProps(cl) {
+			if pr == "C07" {
+				serves07 = true
+			}
+		}
+		if !serves07 {
+			continue
+		}
+		seen[fn] = true
+		// the read of the stored index
+		var idxErr ssa.Value
+		for _, b := range fn.Blocks {
+			for _, ins := range b.Instrs {
+				if c, ok := ins.(*ssa.Call); ok && calleeName(c.Common()) == pkgIndex+".Read" {
+					for _, ref := range *c.Referrers() {
+						if ex, ok := ref.(*ssa.Extract); ok && ex.Index == 1 {
+							idxErr = ex
+						}
+					}
+				}
+			}
+		}
+		hasRename := false
+		for _, o := range p.fsOps(fn) {
+			if o.op == "RENAME" {
+				hasRename = true
+			}
+		}
+		if !hasRename {
+			// L9: a checker
+			ob := Ob{Rule: "R11", Inst: "L9:" + funcLabel(fn) + ":verdict-needs-comparison", Props: []string{"C07"}, Pos: p.at(cl.read), Func: funcLabel(fn), Nontrivial: true}
+			var bad []string
+			for _, rt := range returnsOf(fn) {
+				if ea.isFailureReturn(fn, rt) {
+					continue
+				}
+				okR := false
+				for _, hb := range fn.Blocks {
+					iff, isIf := terminator(hb).(*ssa.If)
+					if !isIf {
+						continue
+					}
+					for _, t := range sentinelTests(iff.Cond) {
+						if isNotExistTarget(t.atom) && edgeDominates(hb, t.edge, rt.Block()) {
+							okR = true
+						}
+					}
+					cond, pos := iff.Cond, true
+					for {
+						u, ok := cond.(*ssa.UnOp)
+						if !ok || u.Op != token.NOT {
+							break
+						}
+						pos, cond = !pos, u.X
+					}
+					if c, ok := cond.(*ssa.Call); ok && strings.HasPrefix(calleeName(c.Common()), "slices.Equal") {
+						e := 0
+						if !pos {
+							e = 1
+						}
+						if edgeDominates(hb, e, rt.Block()) {
+							okR = true
+						}
+					}
+				}
+				if !okR {
+					bad = append(bad, p.at(rt)+": success without the stored index having been compared equal with the one derived from the log (and the index file exists)")
+				}
+			}
+			if len(bad) > 0 {
+				ob.Status, ob.Msg, ob.Path = Violated, "the check can call a segment fine whose index file exists but was not compared with the log", bad
+			} else {
+				ob.Status, ob.Msg = Discharged, "every success return follows the whole-index comparison, or the test that the index file does not exist"
+			}
+			obs = append(obs, ob)
+			continue
+		}
+		// L10: a recoverer
+		if idxErr == nil {
+			continue
+		}
+		ob := Ob{Rule: "R11", Inst: "L10:" + funcLabel(fn) + ":index-damage-is-repaired", Props: []string{"C07", "C05"}, Pos: p.at(cl.read), Func: funcLabel(fn), Nontrivial: true}
+		corr := "G:" + pkgIndex + ".ErrCorrupted"
+		var bad []string
+		for _, rt := range returnsOf(fn) {
+			if !ea.isFailureReturn(fn, rt) {
+				continue
+			}
+			v := returnOperand(rt, 0)
+			if !derivesFromErr(v, idxErr, 0) {
+				continue
+			}
+			excluded := false
+			for _, hb := range fn.Blocks {
+				iff, isIf := terminator(hb).(*ssa.If)
+				if !isIf {
+					continue
+				}
+				if t, ok := classifyErrCond(iff.Cond, idxErr); ok && t.kind == "is" && t.target == corr {
+					notEdge := 1
+					if !t.trueMeans {
+						notEdge = 0
+					}
+					if edgeDominates(hb, notEdge, rt.Block()) {
+						excluded = true
+					}
+				}
+			}
+			if !excluded {
+				bad = append(bad, p.at(rt)+": an error of reading the index is handed on where it may be of the corruption class")
+			}
+		}
+		if len(bad) > 0 {
+			ob.Status, ob.Msg, ob.Path = Violated, "recovery gives up on damage in the index file (for instance in its header flags) although the log is intact and the index is derived data", bad
+		} else {
+			ob.Status, ob.Msg = Discharged, "an error of reading the index is handed on only where it was tested as not of the corruption class"
+		}
+		obs = append(obs, ob)
+	}
+	return obs
+}
+
+// ---------------------------------------------------------------------------
+// R19e / R25c EVERY-SEGMENT (C17, C13): a loop over the segments of a directory that migrates (or
+// stats) them does so for every one: no iteration reaches the next one without the call.
+func (p *Prog) everySegment() []Ob {
+	var obs []Ob
+	r := p.R
+	targets := map[string][]string{"Migrate": {"C17"}, "Stat": {"C13"}}
+	for _, fn := range p.Funcs {
+		if !srcFunc(fn) || fn.Parent() != nil {
+			continue
+		}
+		for _, b := range fn.Blocks {
+			for _, ins := range b.Instrs {
+				c, ok := ins.(*ssa.Call)
+				if !ok {
+					continue
+				}
+				g := c.Common().StaticCallee()
+				if g == nil || recvNamed(g) != r.Segment {
+					continue
+				}
+				props, tracked := targets[g.Name()]
+				if !tracked {
+					continue
+				}
+				h, loop := innermostLoop(b)
+				if loop == nil {
+					continue
+				}
+				// the loop ranges over a slice of segments
+				overSegments := false
+				for lb := range loop {
+					for _, li := range lb.Instrs {
+						if ia, ok := li.(*ssa.IndexAddr); ok {
+							if sl, ok := ia.X.Type().Underlying().(*types.Slice); ok && namedOf(sl.Elem()) == r.Segment {
+								overSegments = true
+							}
+						}
+					}
+				}
+				if !overSegments {
+					continue
+				}
+				ob := Ob{Rule: "R19", Inst: "e:every-segment:" + funcLabel(fn) + ":" + g.Name(), Props: props, Pos: p.at(c), Func: funcLabel(fn), Nontrivial: true}
+				skip := false
+				seen := map[*ssa.BasicBlock]bool{}
+				var w func(x *ssa.BasicBlock, first bool)
+				w = func(x *ssa.BasicBlock, first bool) {
+					if skip || !loop[x] || x == c.Block() {
+						return
+					}
+					if x == h && !first {
+						skip = true
+						return
+					}
+					if seen[x] {
+						return
+					}
+					seen[x] = true
+					for _, s := range x.Succs {
+						w(s, false)
+					}
+				}
+				w(h, true)
+				if skip {
+					ob.Status, ob.Msg = Violated, "an iteration over the segments can go on to the next segment without "+g.Name()+" of this one: some segments (for instance an empty head) are passed over"
+				} else {
+					ob.Status, ob.Msg = Discharged, "every iteration over the segments calls "+g.Name()
+				}
+				obs = append(obs, ob)
+			}
+		}
+	}
+	return obs
+}
+
+// ---------------------------------------------------------------------------
+// R30b TIME-IDENTITY (C10, C01): time.Time values are never compared with == or != (that compares
+// wall clock, monotonic reading and location pointer: two spellings of one instant differ); the
+// stored instants are compared through UnixMicro / Equal / Before / After.
+func (p *Prog) timeIdentity() []Ob {
+	var bad []string
+	n := 0
+	for _, fn := range p.Funcs {
+		if !srcFunc(fn) {
+			continue
+		}
+		for _, b := range fn.Blocks {
+			for _, ins := range b.Instrs {
+				bo, ok := ins.(*ssa.BinOp)
+				if !ok {
+					continue
+				}
+				if bo.Op == token.EQL || bo.Op == token.NEQ || bo.Op == token.LSS || bo.Op == token.GTR || bo.Op == token.LEQ || bo.Op == token.GEQ {
+					n++
+				}
+				if (bo.Op == token.EQL || bo.Op == token.NEQ) && (typeIs(bo.X.Type(), "time", "Time") || typeIs(bo.Y.Type(), "time", "Time")) {
+					bad = append(bad, fmt.Sprintf("%s: two time.Time values are compared with %s in %s", p.at(bo), bo.Op, funcLabel(fn)))
+				}
+			}
+		}
+	}
+	ob := Ob{Rule: "R30", Inst: "b:time-identity", Props: []string{"C10", "C01"}, Pos: "-", Nontrivial: true}
+	sort.Strings(bad)
+	switch {
+	case len(bad) > 0:
+		ob.Pos = strings.SplitN(bad[0], ": ", 2)[0]
+		ob.Status, ob.Msg, ob.Path = Violated, "instants are compared as structs: a query time in another location, with a monotonic reading or with sub-microsecond digits is 'different' from the stored time of the same microsecond", bad
+	case n < 100:
+		ob.Status, ob.Msg = Undecided, fmt.Sprintf("only %d comparisons found in the module", n)
+	default:
+		ob.Status, ob.Msg = Discharged, fmt.Sprintf("%d comparisons in the module, none of them between time.Time structs", n)
+	}
+	return []Ob{ob}
 }
